@@ -329,17 +329,22 @@ def impl_result(hout):
     return hout.split(" || ")[0]
 
 
+def as_line(case):
+    """history ops (`stripsh modeA modeB A -- B`) are judged as the plain op on their last geometry"""
+    return getattr(case, "plain_line", None) or case.op
+
+
 def model_line(case):
     def f(hout):
         if hout is None or hout.startswith("CRASH") or hout in ("invalid-input", "bad-op"):
             return None
-        return f"c14v {case.op} @@ {impl_result(hout)}"
+        return f"c14v {as_line(case)} @@ {impl_result(hout)}"
     return f
 
 
 def oracle(hout, case):
     """what can be judged from the implementation's output alone: the op ran, idempotence"""
-    op = case.op.split(" ", 1)[0]
+    op = as_line(case).split(" ", 1)[0]
     if hout in ("invalid-input", "bad-op"):
         return ("c14-generator-invalid-input", f"the harness refused `{_short(case.op)}`: {hout}")
     parts = hout.split(" || ")
@@ -367,7 +372,7 @@ def parse_flags(mout):
 
 def spec(hout, mout, case):
     """the clauses of C14 on (input, implementation's result), evaluated by the Lean checkers"""
-    op = case.op.split(" ", 1)[0]
+    op = as_line(case).split(" ", 1)[0]
     if " | " not in mout:
         return ("c14-verifier-malformed", f"`c14v {_short(case.op)}` -> {_short(mout)}")
     flags = parse_flags(mout)
@@ -640,6 +645,17 @@ def generate(rng, tier):
         txt = g.to_text()
         for mode in (0, 1):
             add(f"strips {mode} {txt}", ("strips", "restart" if mode else "degenerate_triangles"), g)
+    # --- histories: ONE MeshStripifier object used for mesh A first, then judged on mesh B
+    for _ in range(60 * mult):
+        ga = structured_mesh(rng, rng.choice([2, 3, 5, 9]), "first")
+        gb = structured_mesh(rng, rng.choice([3, 6, 12, 30]), "first")
+        if not ga.faces or not gb.faces:
+            continue
+        ma, mb = rng.randrange(2), rng.randrange(2)
+        c = make_case(f"stripsh {ma} {mb} {ga.to_text()} -- {gb.to_text()}", ("strips_history",))
+        c.plain_line = f"strips {mb} {gb.to_text()}"
+        c.model = model_line(c)
+        cases.append(c)
     # --- builders
     for _ in range(150 * mult):
         line, tags = mesh_builder_line(rng, size())
@@ -654,4 +670,13 @@ def generate(rng, tier):
 
 def replay_cases(lines):
     # both flavours: a crash found under ASan must replay under ASan
-    return [make_case(l, tags=("replay", fl), flavour=fl) for l in lines for fl in ("plain", "asan")]
+    out = []
+    for l in lines:
+        for fl in ("plain", "asan"):
+            c = make_case(l, tags=("replay", fl), flavour=fl)
+            t = l.split()
+            if t and t[0] == "stripsh" and "--" in t:
+                c.plain_line = f"strips {t[2]} " + " ".join(t[t.index("--") + 1:])
+                c.model = model_line(c)
+            out.append(c)
+    return out
